@@ -194,16 +194,17 @@ fn extract_class(
     };
     let body = Core::Block { statements };
 
-    if let Core::Type { lit, .. } = ty.to_py(imp) {
-        let name = Box::from(Core::Id { lit });
-        Ok(Core::ClassDef {
-            name,
-            parent_names,
-            body: Box::from(body),
-        })
-    } else {
-        panic!("class name should be type")
-    }
+    // The name of a class that is being defined is the identifier itself, also when it
+    // happens to be spelled like a type the generator renders specially (Union, Tuple, ...).
+    let lit = match ty.to_py(imp) {
+        Core::Type { lit, .. } => lit,
+        _ => ty.name.clone(),
+    };
+    Ok(Core::ClassDef {
+        name: Box::from(Core::Id { lit }),
+        parent_names,
+        body: Box::from(body),
+    })
 }
 
 fn has_abstract_parent(clss: &Option<Class>, ctx: &Context) -> bool {
